@@ -196,3 +196,26 @@ def mk_options(g, encoding=None):
         o.spine_types, o.from_measure, o.to_measure, o.token_categories, o.kern_type = types, None, None, cats, enc
         o.instruments, o.show_measure_numbers, o.spine_ids = None, False, ids
     return o
+
+
+from kernpy.core.document import Document, MultistageTree
+
+
+def mk_options_range(g):
+    """ExportOptions whose measure range is None or any integer (the other fields are not read by the validator)"""
+    a = None if g.choice('from.none', [True, False]) else g.int('from_measure')
+    b = None if g.choice('to.none', [True, False]) else g.int('to_measure')
+    o = g.new(ExportOptions, {'spine_types': None, 'from_measure': a, 'to_measure': b, 'token_categories': None, 'kern_type': None,
+                              'instruments': None, 'show_measure_numbers': False, 'spine_ids': None}, None)
+    if not hasattr(o, 'fields'):
+        o.from_measure, o.to_measure = a, b
+    return o
+
+
+def mk_document_index(g):
+    """a Document of which only the measure index is read: M measure starts at arbitrary stages"""
+    mst = g.seq('mst', lambda e: e.int('stage', 0))
+    d = g.new(Document, {'tree': None, 'measure_start_tree_stages': mst, 'page_bounding_boxes': {}, 'header_stage': None}, None)
+    if not hasattr(d, 'fields'):
+        d.tree, d.measure_start_tree_stages, d.page_bounding_boxes, d.header_stage = None, mst, {}, None
+    return d
